@@ -64,7 +64,7 @@ Parser, variables, gallina = symkern.Parser, symkern.variables, symkern.gallina
 FAMILIES = ["eval", "grid", "pred", "interp", "gen"]
 FAMILY_DOC = {
     "eval": "Spline::operator()(x), front(), back() (property C02)",
-    "grid": "Grid construction, Grid::findElement, Grid::operator== / != (C11 / C13)",
+    "grid": "Grid construction, Support and Spline construction (window / coefficient-count validation), Grid::findElement, Grid::operator== / != (C11 / C13)",
     "pred": "Spline::isZero, operator== / !=, checkOverlap (C15)",
     "interp": "interpolation::interpolate with a recording solver: the assembled system and the returned spline (C12)",
     "gen": "generateBSplines<p>(knots) (C01)",
@@ -150,6 +150,14 @@ def scenarios():
             ctor("%d_desc%d" % (n, k), n)
     ctor("iter_3_inc", 3, "Grid<T>(l.begin(), l.end())")
     ctor("init_3_desc1", 3, "Grid<T>(std::initializer_list<T>{l[0], l[1], l[2]})")
+    for s_, e_ in ((0, 4), (1, 3), (2, 3), (0, 0), (2, 2), (3, 1), (0, 5), (4, 5), (3, 4)):
+        add("grid_supctor_%d_%d" % (s_, e_), [("g", grd(4))], "sup_ctor {g} %d%%N %d%%N" % (s_, e_), "ok",
+            ("support", "throw"), "Support<T>(g, %d, %d)" % (s_, e_))
+    for nm, s_, e_, n in (("whole", 0, 4, 3), ("whole", 0, 4, 2), ("whole", 0, 4, 4), ("whole", 0, 4, 0),
+                          ("one", 1, 3, 1), ("one", 1, 3, 0), ("one", 1, 3, 2), ("point", 2, 3, 0), ("point", 2, 3, 1),
+                          ("empty", 0, 0, 0), ("empty", 0, 0, 1)):
+        add("grid_splctor_%s_%d" % (nm, n), [("sup", sup(s_, e_)), ("cs", ("COEFS", n, 2))], "spl_ctor 1 {sup} {cs}",
+            "ok", ("spline", "throw"), "Spline<T, 1>(sup, cs)")
     for p in positions(4):
         add("grid_find_" + p, [("g", grd(4)), ("x", SCALAR)], "grid_find {g} {x}", "ok", ("index", "throw"),
             "g.findElement(x)")
@@ -311,6 +319,13 @@ def parse_object(text, where):
         if len(ts) != int(m.group(3)):
             die(5, "%s: announces %s grid points, prints %d" % (where, m.group(3), len(ts)))
         return dict(kind="support", start=int(m.group(1)), end=int(m.group(2)), grid=ts)
+    m = re.match(r"COEFS (\d+) (\d+) ?(.*)$", text)
+    if m:
+        n, k = int(m.group(1)), int(m.group(2))
+        ts = Parser(m.group(3), where).terms()
+        if len(ts) != n * k:
+            die(5, "%s: announces %d x %d coefficients, prints %d" % (where, n, k, len(ts)))
+        return dict(kind="coefs", width=k, rows=[ts[i * k:(i + 1) * k] for i in range(n)])
     m = re.match(r"BOUNDS (\d+) ?(.*)$", text)
     if m:
         toks = m.group(2)
@@ -367,6 +382,8 @@ def object_terms(o):
         return [t for _, _, t in o["items"]]
     if k == "support":
         return list(o["grid"])
+    if k == "coefs":
+        return [t for r in o["rows"] for t in r]
     if k == "splines":
         return [t for s in o["items"] for t in object_terms(s)]
     if k == "system":
@@ -396,6 +413,8 @@ def operand_text(o):
         return spline_text(o)
     if k == "support":
         return "(mkSup %s %d%%N %d%%N)" % (glist([gterm(t) for t in o["grid"]]), o["start"], o["end"])
+    if k == "coefs":
+        return coefs_text(o["rows"])
     if k == "bounds":
         return glist(["(mkBnd %s %d%%nat %s)" % ("FIRST" if n == "F" else "LAST", d, gterm(t)) for n, d, t in o["items"]],
                      "(boundary F)")
@@ -416,6 +435,8 @@ def shape_of(o):
         return bnds(len(o["items"]))
     if k == "support":
         return sup(o["start"], o["end"])
+    if k == "coefs":
+        return ("COEFS", len(o["rows"]), o["width"])
     raise AssertionError(k)
 
 
@@ -565,6 +586,8 @@ def result_text(r, wrap, name):
         body = "%d%%N" % r["value"]
     elif k == "grid":
         body = glist([gterm(t) for t in r["terms"]])
+    elif k in ("support", "spline"):
+        body = operand_text(r)
     elif k == "splines":
         body = "[" + ";\n       ".join(spline_text(s, ";\n          ") for s in r["items"]) + "]" if r["items"] \
             else "(@nil (spline F))"
